@@ -283,7 +283,8 @@ SPEC = {
              'unvisited complement and its topological order; nesting / discover / end-hook protocol are only counted) plus top_sort order in both '
              'directions. Cyclic netlists (operand rewired to itself/a later gate, parsed from bench text): cycle '
              'check raises iff own DFS finds a cycle reachable from the outputs. Non-trivial: some gate has >=2 '
-             'distinct users and the start set reaches a strict non-empty subset; for cycles: a cycle exists.'),
+             'distinct users and the start set reaches a strict non-empty subset; for cycles: a cycle exists.'
+             " Added during the build: hooks that read their own / neighbouring / all entries of the state mapping, tuple and live start sets, circuits looked at in the middle of their construction (route 'observe')."),
     'assumptions': ['own reachability / cycle detection in props/c20.py'],
     'subs': [Sub('traverse', cases, check_traverse, {'quick': 3000, 'thorough': 250000}),
              Sub('cycles', cyclic_cases, check_cycles, {'quick': 1500, 'thorough': 100000})],
